@@ -58,6 +58,37 @@ class SpecGen(aasgen.Gen):
             return decimal.Decimal(self.rng.choice(self.DECIMALS))
         return super().xsd_value(t)
 
+    def submodel(self):
+        if self.rng.random() < 0.15:
+            return self.pair_submodel()
+        return super().submodel()
+
+    def pair_submodel(self):
+        """a submodel in which every feature occurs at least twice with non-default values: two elements of each of three
+        kinds with nearly all optional attributes present, two unordered SubmodelElementLists, kind = Template (state
+        shared between the renderings of two objects of one class shows only then)"""
+        from basyx.aas import model
+        r = self.rng
+        old = self.p_opt
+        self.p_opt = 0.85
+        try:
+            elems = []
+            for k in r.sample(aasgen.SUBMODEL_ELEMENTS, 3):
+                elems += [self.submodel_element(kinds=[k]) for _ in range(2)]
+            for _ in range(2):
+                items = [model.Property(None, model.datatypes.Int, r.randint(0, 5)) for _ in range(r.randint(0, 2))]
+                elems.append(model.SubmodelElementList(self.id_short(), model.Property, items,
+                                                       value_type_list_element=model.datatypes.Int, order_relevant=False))
+            r.shuffle(elems)
+            kw = {}
+            self.referable_kw(kw)
+            self.identifiable_kw(kw)
+            kw["kind"] = model.ModellingKind.TEMPLATE
+            self.feat("pair-submodel")
+            return model.Submodel(self.ident("sm"), submodel_element=elems, **kw)
+        finally:
+            self.p_opt = old
+
     def lang(self, clsname):
         r = self.rng
         maxlen = {"MultiLanguageNameType": 64, "MultiLanguageTextType": 1023, "DefinitionTypeIEC61360": 1023,
@@ -753,9 +784,8 @@ class IndependentWriter:
     @staticmethod
     def add_noise(root, rng):
         """XML comments and processing instructions are no part of the content model: put some between the children
-        of elements with element content (the root included) and inside character data.  Character data is split only
-        where both parts are empty or hold a non-blank character (a blank-only part next to a comment is a blank text
-        node, which parsers configured to drop ignorable white space remove: known corner handled under C09)."""
+        of elements with element content (the root included) and inside character data, at any position (a blank-only
+        part next to a comment is character data, too)."""
         from lxml import etree
 
         def node():
@@ -763,8 +793,6 @@ class IndependentWriter:
                 return etree.Comment(rng.choice([" generated by another tool ", "x", " a < b & c "]))
             return etree.ProcessingInstruction("editor", 'fold="documents"')
 
-        def solid(part):
-            return part == "" or part.strip(" \t\r\n") != ""
         n = 0
         els = [e for e in root.iter() if isinstance(e.tag, str)]
         for e in els:
@@ -774,7 +802,7 @@ class IndependentWriter:
                     e.insert(rng.randint(0, len(kids)), node())
                     n += 1
             elif e.text and rng.random() < 0.12:
-                cuts = [i for i in range(len(e.text) + 1) if solid(e.text[:i]) and solid(e.text[i:])]
+                cuts = list(range(len(e.text) + 1))      # any position, blank-only parts next to the comment included
                 if cuts:
                     i = rng.choice(cuts)
                     c = node()
@@ -833,7 +861,14 @@ def canon_of_store(store):
 # member / element name, nesting position and string, except (a) the spelling of typed literals (judged separately
 # against the XSD lexical spaces) and (b) attributes holding their metamodel default, which may be written or left out.
 LITERAL_MEMBERS = {"value", "min", "max", "lastUpdate", "minInterval", "maxInterval"}
-DEFAULT_MEMBERS = {"kind", "orderRelevant"}
+# member -> the spellings of its metamodel default: only a member holding its default is the same as an absent one
+DEFAULT_VALUES = {"kind": ("Instance", "ConceptQualifier"), "orderRelevant": (True, "true", "1")}
+
+
+def _is_default(member, v):
+    if isinstance(v, str):
+        v = v.strip(" \t\r\n")
+    return member in DEFAULT_VALUES and any(v is d or (type(v) is type(d) and v == d) for d in DEFAULT_VALUES[member])
 
 
 def _key(x):
@@ -843,7 +878,7 @@ def _key(x):
 
 def jskel(d, member=""):
     if isinstance(d, dict):
-        return {k: jskel(v, k) for k, v in d.items() if k not in DEFAULT_MEMBERS}
+        return {k: jskel(v, k) for k, v in d.items() if not _is_default(k, v)}
     if isinstance(d, list):
         return sorted((jskel(x, member) for x in d), key=_key)
     if isinstance(d, str):
@@ -855,5 +890,42 @@ def xskel(e):
     kids = [k for k in e if isinstance(k.tag, str)]
     tag = Twin.tag(e)
     if kids:
-        return {"tag": tag, "kids": sorted((xskel(k) for k in kids if Twin.tag(k) not in DEFAULT_MEMBERS), key=_key)}
+        return {"tag": tag, "kids": sorted((xskel(k) for k in kids
+                                            if not (len(k) == 0 and _is_default(Twin.tag(k), k.text or ""))), key=_key)}
     return {"tag": tag, "text": "<literal>" if tag in LITERAL_MEMBERS else (e.text or "")}
+
+
+def xskel_diff(a, b, path=""):
+    """first difference between two XML skeletons as '<tag path>: <what>' (None: equal); a = prescribed, b = written"""
+    here = f"{path}/{a['tag']}"
+    if a["tag"] != b["tag"]:
+        return f"{here}: element {a['tag']} != {b['tag']}"
+    if ("kids" in a) != ("kids" in b):
+        return f"{here}: {'children' if 'kids' in a else 'text'} prescribed, {'children' if 'kids' in b else 'text'} written"
+    if "kids" not in a:
+        return None if a["text"] == b["text"] else f"{here}: text {a['text']!r} != {b['text']!r}"
+    ka, kb = [_key(k) for k in a["kids"]], [_key(k) for k in b["kids"]]
+    if ka == kb:
+        return None
+    ta, tb = sorted(k["tag"] for k in a["kids"]), sorted(k["tag"] for k in b["kids"])
+    if ta != tb:
+        missing = [x for x in set(ta) if ta.count(x) > tb.count(x)]
+        extra = [x for x in set(tb) if tb.count(x) > ta.count(x)]
+        return f"{here}: missing {sorted(missing)} extra {sorted(extra)}"
+    rest = [k for k in b["kids"]]
+    unmatched = []
+    for k in a["kids"]:
+        kk = _key(k)
+        hit = next((r for r in rest if _key(r) == kk), None)
+        if hit is not None:
+            rest.remove(hit)
+        else:
+            unmatched.append(k)
+    for k in unmatched:          # pair each unmatched prescribed child with a written child of the same tag
+        cand = next((r for r in rest if r["tag"] == k["tag"]), None)
+        if cand is not None:
+            rest.remove(cand)
+            d = xskel_diff(k, cand, here)
+            if d:
+                return d
+    return f"{here}: children differ"
